@@ -43,6 +43,7 @@ type OpProfile struct {
 	ForceName      string  // operation name to use (always sent as operationName)
 	HostileStrings bool    // string literals / variable values with quotes, backslashes, unicode, control characters
 	Pool           int     // id pool size for node roots
+	PFragReuse     float64 // where a finished named fragment fits, spread it again instead of generating fields
 	HostileAliases bool    // aliases `id` / `node` on other fields
 	PVarNamedID    float64 // a String/ID variable is named `id` (the name the gateway uses itself) and holds an object id
 	PNodeSecond    float64 // a root node selection carries a fragment on a second entity type (default 0.2)
@@ -76,6 +77,7 @@ type opGen struct {
 	mirror    bool
 	mr        *rand.Rand
 	idVarUsed bool
+	fragOn    map[string][]string // type condition -> names of finished named fragments (for a second spread)
 }
 
 func (g *opGen) tag(t string) { g.tags[t] = true }
@@ -254,6 +256,15 @@ func (g *opGen) mirrorRoot(root *ast.Definition, fields []*ast.FieldDefinition) 
 	g.tag("mirror")
 	if s1 != s2 {
 		g.tag("mirror-deviates")
+	}
+	if td.Kind == ast.Object && main.Intn(3) == 0 {
+		// both copies spread one named fragment (the second copy's deviations are dropped)
+		g.nfrag++
+		name := fmt.Sprintf("M%d", g.nfrag)
+		g.frags = append(g.frags, "fragment "+name+" on "+td.Name+" "+s1)
+		g.tag("mirror-shared-fragment")
+		g.tag("frag-reused")
+		return "m1: " + f.Name + args + " { ..." + name + " } m2: " + f.Name + args + " { ..." + name + " }"
 	}
 	return "m1: " + f.Name + args + " " + s1 + " m2: " + f.Name + args + " " + s2
 }
@@ -604,6 +615,11 @@ func (g *opGen) selectionSet(def *ast.Definition, depth int) string {
 
 func (g *opGen) fields(def *ast.Definition, depth int, used map[string]bool) []string {
 	var parts []string
+	if names := g.fragOn[def.Name]; len(names) > 0 && g.p.PFragReuse > 0 && g.chance(g.p.PFragReuse) {
+		// a second spread of a fragment defined earlier in the document
+		g.tag("frag-reused")
+		return []string{"..." + pick(g.r, names)}
+	}
 	var cands []*ast.FieldDefinition
 	for _, f := range def.Fields {
 		if strings.HasPrefix(f.Name, "__") {
@@ -648,6 +664,10 @@ func (g *opGen) fields(def *ast.Definition, depth int, used map[string]bool) []s
 		g.frags = append(g.frags, "fragment "+name+" on "+def.Name+" { "+strings.Join(sel[k:], " ")+" }")
 		sel = append(sel[:k:k], "..."+name+g.directive())
 		g.tag("frag-named")
+		if g.fragOn == nil {
+			g.fragOn = map[string][]string{}
+		}
+		g.fragOn[def.Name] = append(g.fragOn[def.Name], name)
 	} else if len(sel) > 0 && g.chance(g.p.PInline) {
 		k := g.r.Intn(len(sel))
 		cond := ""
